@@ -1,7 +1,5 @@
 //! Harness for the swarm-area properties. `h_swarm <PROP> --seed S --tier T [--count N] [--replay F]`
-mod c13;
-mod core;
-mod sim;
+use h_swarm::{c13, core};
 
 fn main() {
     let args = hcore::Args::parse();
@@ -9,7 +7,7 @@ fn main() {
     let mut out = hcore::Out::new();
     match args.prop.as_str() {
         "C13" => c13::run(&args, &mut out),
-        "C01" | "C02" | "C04" | "C05" | "C06" => core::run(&args, &mut out),
+        "C01" | "C02" | "C04" | "C05" | "C06" | "C08" => core::run(&args, &mut out),
         p => {
             eprintln!("h_swarm: unknown property {p}");
             std::process::exit(2);
